@@ -39,7 +39,7 @@ TIERS = {
     "quick": {"runs": 12000, "chunk": 100, "selftest": 64, "minimise_s": 30},
     "thorough": {"budget_s": 600, "chunk": 300, "selftest": 512, "minimise_s": 90},
 }
-PROBES = ["fault_in_set", "fault_in_union", "fault_in_nested_dc", "hook_fault_fired", "input_fault_fired", "typed_extras_fault", "top_level_mapping_fault", "key_str_fault",
+PROBES = ["fault_in_set", "fault_in_union", "fault_in_nested_dc", "hook_fault_fired", "input_fault_fired", "typed_extras_fault", "top_level_mapping_fault", "key_str_fault", "forbidden_extra_key", "repr_fault_fired",
           "transient_fired", "hostile_scalar", "body_blocked"]
 
 BUILTINS = {
@@ -51,7 +51,34 @@ BENIGN = {"int": 3, "float": 1.5, "str": "x", "bool": True, "bytes": b"ab", "dat
           "date": "2020-01-02", "time": "03:04:05", "timedelta": 12, "decimal": "1.5"}
 
 
+class ReprBomb:
+    """An arbitrary object whose repr()/str() is a hook fault site: building an error message must not leak from it."""
+
+    def __repr__(self):
+        faults.hook_point("repr")
+        return "<ReprBomb>"
+
+    __str__ = __repr__
+
+
+def _self_list():
+    a = []
+    a.append(a)
+    return a
+
+
+def _mutual_lists():
+    a, b = [], []
+    a.append(b)
+    b.append(a)
+    return a
+
+
 def hostile_pool():
+    return _hostile_base() + [_self_list(), _mutual_lists(), ReprBomb(), [ReprBomb()]]
+
+
+def _hostile_base():
     return [float("inf"), float("-inf"), float("nan"), 10 ** 400, -0.0, "", b"\xff\xfe", 1e308, "nan", "inf",
             "-inf", "1e999", decimal.Decimal("Infinity"), decimal.Decimal("NaN"), [], {}, (), None, object,
             "9" * 400, b"", "\x00", [[]], {"a": {}}, 2 ** 63, -2 ** 63 - 1, 1e-320, "１２", " 3 ", "0x10",
@@ -191,6 +218,11 @@ def generate(rng, tier):
             plan["typed_extras"] = True
             for j in range(rng.choice([1, 1, 2])):
                 plan["extras"]["x%d" % j] = gen_value(rng, ["leaf"], pool, pos, 1, 0)
+        elif rng.random() < 0.3 and not (api.startswith("func") and plan["positional"]):
+            # extras that are not allowed (addition=False): the value of an exceeding key may be any object
+            plan["forbid_extras"] = True
+            for j in range(rng.choice([1, 2])):
+                plan["extras"]["x%d" % j] = rng.choice([{"$bomb": 1}, gen_value(rng, ["leaf"], pool, pos, 1, 0), {"$b": ["int", rng.randrange(N_HOSTILE)]}])
         # the mapping handed to __from__ is iterated by the library itself: a legitimate fault site at the top level
         if api in ("schema", "dataclass") and plan["eager"]:
             plan["top_fd"] = rng.random() < 0.3
@@ -214,6 +246,8 @@ def generate(rng, tier):
             hooks.setdefault(site, {})[str(rng.choice([1, 1, 2, 3, 5]))] = rng.choice(faults.EXC_NAMES)
     if plan.get("cast_keys") and rng.random() < 0.7:
         hooks.setdefault("key_str", {})[str(rng.choice([1, 1, 2, 3]))] = rng.choice(faults.EXC_NAMES)
+    if ('"$bomb"' in kernel.jdump(plan.get("extras", {})) or hostile_p) and rng.random() < 0.6:
+        hooks.setdefault("repr", {})[str(rng.choice([1, 1, 2, 3]))] = rng.choice(faults.EXC_NAMES)
     inputs = {}
     in_sites = []
     if plan.get("top_fd"):
@@ -300,6 +334,8 @@ def build_type(t, env):
 
 def build_value(v, hostile):
     if isinstance(v, dict):
+        if "$bomb" in v:
+            return ReprBomb()
         if "$b" in v:
             name, idx = v["$b"]
             if idx >= 0 and hostile:
@@ -376,6 +412,8 @@ def build_call(plan, env):
         okw["collect_errors"] = True
     if plan.get("typed_extras") and api in ("schema", "dataclass"):
         okw["addition"] = faults.Leaf
+    if plan.get("forbid_extras"):
+        okw["addition"] = False
     if plan.get("cast_keys"):
         okw["cast_keyword_str"] = True
     opts = Options(**okw) if okw else None
@@ -444,6 +482,8 @@ def _attempt(plan, env, hostile, budget):
     call = build_call(plan, env)
     value = build_value(plan["input"], hostile)
     for k, x in (plan.get("extras") or {}).items():
+        if plan.get("forbid_extras") and not hostile:
+            continue     # the fault-free control does not carry the forbidden keys
         value[k] = build_value(x, hostile)
     if plan.get("cast_keys"):
         value = {(KeyObj(k) if i % 2 == 0 else k): x for i, (k, x) in enumerate(value.items())}
@@ -517,6 +557,10 @@ def execute(plan):
         res.stats["probe:transient_fired"] += 1
     if plan.get("typed_extras") and any(str(faults.fault_id(faults.Leaf, x["$r"])) in plan["faults"]["leaf"] for x in plan.get("extras", {}).values()):
         res.stats["probe:typed_extras_fault"] += 1
+    if plan.get("forbid_extras"):
+        res.stats["probe:forbidden_extra_key"] += 1
+    if st.hook_calls.get("repr", 0) and "repr" in plan["faults"]["hook"] and st.fired.get("hook_fail"):
+        res.stats["probe:repr_fault_fired"] += 1
     if plan.get("top_fd") and st.fired.get("input_fail"):
         res.stats["probe:top_level_mapping_fault"] += 1
     if plan.get("cast_keys") and st.hook_calls.get("key_str", 0) and "key_str" in plan["faults"]["hook"]:
